@@ -1,6 +1,7 @@
 import Generated.PyBorderAsRtf
 import Model.Emit
 import Proofs.EscNodes
+import Proofs.PyStr
 /-!
 # C01 — translator tie for the border emitter
 
@@ -16,14 +17,8 @@ set_option linter.unusedSimpArgs false
 namespace Props.C01py
 open Model.Rtf Model.Emit Generated.Py Generated.Py.BorderAsRtf
 
-/-- code points of a list of characters -/
-def cps (l : List Char) : List Nat := l.map Char.toNat
-
-/-- the text `BORDER_CODES` holds for a style whose control word is `w` (`""` for the style `""`) -/
-def codeText (w : List Char) : List Nat := if w.isEmpty then [] else cps ('\\' :: w)
-
-theorem strOfInt_digits (k : Int) : strOfInt k = cps (intDigits k) := by
-  simp [strOfInt, cps, Proofs.EscNodes.intDigits_agree]
+/-! `cps` (code points of a list of characters), `codeText` (the text `BORDER_CODES` holds for a style whose control
+word is `w`) and `strOfInt_digits` live in `Proofs/PyStr.lean`, shared by all emitter bridge files. -/
 
 /-- an unknown style: `ValueError` -/
 theorem C01py_border_unknown_style (bc gci) (style : List Nat) (width : Int) (color : Option (List Nat))
